@@ -357,10 +357,20 @@ impl VariableAssignment {
         if let Some(last_value) = self.values.last_mut() {
             return last_value.mutate_last_token();
         }
-        self.variables
+        let last_variable = self
+            .variables
             .last_mut()
-            .expect("local assign must have at least one variable")
-            .mutate_or_insert_token()
+            .expect("local assign must have at least one variable");
+
+        if last_variable.has_type() {
+            // the type annotation is written after the name
+            return last_variable
+                .mutate_type()
+                .expect("type should be present")
+                .mutate_last_token();
+        }
+
+        last_variable.mutate_or_insert_token()
     }
 
     super::impl_token_fns!(iter = [variables, tokens]);
